@@ -13,8 +13,8 @@
    each one completely (with its own pending bodies) before the next; the first
    body gets a fresh jump entry (the reported entry), every later body patches
    the placeholder recorded for it; placeholders are pushed as 0; after a body
-   each of its end instructions is appended unless it equals the last
-   instruction of the whole table as it was when the body finished.
+   each of its end instructions is appended, except an EndExpression equal to
+   the last instruction of the whole table as it was when the body finished.
 
    The context a node is compiled in is exactly what its BuildNode carries:
    the containing expression's jump index, the definition of the list it is a
@@ -348,13 +348,14 @@ Definition last_instr (s : cst) : option instr :=
   | [] => i_last_instr init
   end.
 
-(* end instructions of a body: each is appended unless it equals the last
-   instruction of the table as it was when the body finished (read once) *)
+(* end instructions of a body: each is appended, except an EndExpression that
+   equals the last instruction of the table as it was when the body finished
+   (read once) *)
 Definition finish (s : cst) (ends : list instr) : cst :=
   let last := last_instr s in
   fold_left (fun acc e =>
                match last with
-               | Some li => if instr_eqb li e then acc else emit acc e None
+               | Some li => if instr_eqb li e && instruction_eqb (fst e) I_EndExpression then acc else emit acc e None
                | None => emit acc e None
                end) ends s.
 
